@@ -8,6 +8,20 @@ open Lean (Json JsonNumber)
 open Pypyr.Cmd
 
 def natJ (n : Nat) : Json := Json.num (JsonNumber.fromNat n)
+def intJ (i : Int) : Json := Json.num (JsonNumber.fromInt i)
+
+def kindJ : SpawnKind → Json
+  | .notFound => Json.str "notFound"
+  | .permission => Json.str "permission"
+  | .badArgs => Json.str "badArgs"
+
+def kindOf (j : Json) : Except String (Option SpawnKind) :=
+  match j with
+  | .null => pure none
+  | .str "notFound" => pure (some .notFound)
+  | .str "permission" => pure (some .permission)
+  | .str "badArgs" => pure (some .badArgs)
+  | _ => throw s!"unknown spawn kind {j.compress}"
 
 /-- Scripted output must be text on which `rstrip`, text-mode decoding and the model agree:
     printable ASCII, space, tab, newline. Anything else is outside the modelled domain. -/
@@ -16,12 +30,16 @@ def okText (s : String) : Bool :=
 
 def procOf (j : Json) : Except String Proc := do
   let id ← jsonNat? (← j.getObjVal? "id")
-  let code ← jsonNat? (← j.getObjVal? "code")
+  let spawn ← kindOf (← j.getObjVal? "spawn")
+  let code ← jsonInt? (← j.getObjVal? "code")
   let out ← (← j.getObjVal? "out").getStr?
   let err ← (← j.getObjVal? "err").getStr?
-  if code > 255 then throw "exit code > 255 is outside the modelled domain"
+  -- exit statuses: 0..255, or -N for death by signal N (1..64)
+  if code > 255 || code < -64 then throw "exit status outside -64..255 is outside the modelled domain"
   if !(okText out && okText err) then throw "scripted output outside the modelled domain (ASCII text)"
-  pure ⟨id, code, out, err⟩
+  if spawn.isSome && (code != 0 || out != "" || err != "") then
+    throw "a command that cannot be started has no exit status and no output"
+  pure ⟨id, spawn, code, out, err⟩
 
 def procsOf (j : Json) : Except String (List Proc) := do
   (← j.getArr?).toList.mapM procOf
@@ -61,15 +79,21 @@ def outJ : Out → Json
   | .bytes s => Json.mkObj [("b", Json.str s)]
 
 def resJ (r : Result) : Json :=
-  Json.mkObj [("id", natJ r.id), ("code", natJ r.code), ("stdout", outJ r.stdout), ("stderr", outJ r.stderr)]
+  Json.mkObj [("id", natJ r.id), ("code", intJ r.code), ("stdout", outJ r.stdout), ("stderr", outJ r.stderr)]
 
-def errJ (e : CmdErr) : Json := Json.mkObj [("id", natJ e.id), ("code", natJ e.code)]
+def errJ : CmdErr → Json
+  | .exit i c => Json.mkObj [("id", natJ i), ("code", intJ c)]
+  | .spawn i k => Json.mkObj [("id", natJ i), ("spawn", kindJ k)]
 
 def arrJ {α} (f : α → Json) (xs : List α) : Json := Json.arr (xs.map f).toArray
 
-def slotJ : Slot → Json
+def itemJ : Item → Json
   | .res r => Json.mkObj [("res", resJ r)]
-  | .sub rs => Json.mkObj [("sub", arrJ resJ rs)]
+  | .exc i k => Json.mkObj [("exc", Json.mkObj [("id", natJ i), ("spawn", kindJ k)])]
+
+def slotJ : Slot → Json
+  | .one i => Json.mkObj [("one", itemJ i)]
+  | .sub is => Json.mkObj [("sub", arrJ itemJ is)]
 
 def eventJ : Event → Json
   | .start i => Json.arr #[Json.str "s", natJ i]
